@@ -36,8 +36,8 @@ GrayEv(e) ==
 
 RoundTrip(e) ==
     /\ Chk(~e.raised, "round_trip_raised")
-    /\ e.raised \/ Chk(e.nsym * cur.b = Len(e.bits), "symbols_equal_bits_over_bits_per_symbol")
-    /\ e.raised \/ Chk(CASE e.kind = "dpsk" -> DpskLaw(e.bits, e.out, cur.b)
+    /\ IF e.raised THEN TRUE ELSE Chk(e.nsym * cur.b = Len(e.bits), "symbols_equal_bits_over_bits_per_symbol")
+    /\ IF e.raised THEN TRUE ELSE Chk(CASE e.kind = "dpsk" -> DpskLaw(e.bits, e.out, cur.b)
                          [] e.kind = "oqpsk" -> OqpskLaw(e.bits, e.out)
                          [] OTHER -> e.out = e.bits, "hard_demodulation_returns_the_bits")
     /\ UNCHANGED <<cur, kap>>
